@@ -545,6 +545,7 @@ class FieldCompiler(MessageCompiler):
                 source_type=self.proto_obj.type_name,
                 typing_compiler=self.typing_compiler,
                 pydantic=self.output_file.pydantic_dataclasses,
+                known_packages=self.request.output_packages,
             )
         else:
             raise NotImplementedError(f"Unknown type {self.proto_obj.type}")
@@ -749,6 +750,7 @@ class ServiceMethodCompiler(ProtoContentBase):
             typing_compiler=self.output_file.typing_compiler,
             unwrap=False,
             pydantic=self.output_file.pydantic_dataclasses,
+            known_packages=self.request.output_packages,
         ).strip('"')
 
     @property
@@ -779,6 +781,7 @@ class ServiceMethodCompiler(ProtoContentBase):
             typing_compiler=self.output_file.typing_compiler,
             unwrap=False,
             pydantic=self.output_file.pydantic_dataclasses,
+            known_packages=self.request.output_packages,
         ).strip('"')
 
     @property
